@@ -74,22 +74,12 @@ def sepB (q : Nat → Rat) (n : Nat) : Bool :=
 def maxL (l : List Rat) : Rat := l.foldl maxQ (l.getD 0 0)
 def maxAbsL (l : List Rat) : Rat := l.foldl (fun m x => maxQ m (absQ x)) 0
 
-/-- `checkEqualGeneral` is transitive on the row (with reflexivity and symmetry: an equivalence) — "clustered" rows: exact ties,
-    ties inside the library tolerance, everything else separated.  The hypothesis of `greedy_classes`. -/
-def clsB (q : Nat → Rat) (n : Nat) : Bool :=
-  (List.range n).all (fun i => (List.range n).all (fun j => (List.range n).all (fun k =>
-    !(ceG (q i) (q j) && ceG (q j) (q k)) || ceG (q i) (q k))))
-
 /-- some pair sits within 0.1 % of one of the two tolerance thresholds: the double comparison may round either way -/
 def illB (q : Nat → Rat) (n : Nat) : Bool :=
   let near := fun (d t : Rat) => d != 0 && decide (t * (999 / 1000) ≤ d) && decide (d ≤ t * (1001 / 1000))
   (List.range n).any (fun i => (List.range n).any (fun j =>
     let d := absQ (q i - q j)
     near d tolS || near d (minQ (absQ (q i)) (absQ (q j)) * tolG)))
-
-/-- the tie relation is the same before and after the shift -/
-def sameRelB (q : Nat → Rat) (c : Rat) (n : Nat) : Bool :=
-  (List.range n).all (fun i => (List.range n).all (fun j => ceG (q i) (q j) == ceG (q i + c) (q j + c)))
 
 def cmpOf (g : Bool) : Cmp := if g then ceG else ceS
 /-- QGreedyPolicyWrapper as the source currently has it (translator: `Gen.C09.greedy…`) -/
